@@ -101,7 +101,9 @@ class Git:
 
     def rev_parse(self, commit_symbol: str) -> Optional[str]:
         result = subprocess.run(
-            ["git", "rev-parse", commit_symbol],
+            # N.B. An annotated tag resolves to a tag object, not to the commit
+            # that it points to, unless we ask for the commit explicitly.
+            ["git", "rev-parse", commit_symbol + "^{commit}"],
             cwd=self._project_root,
             capture_output=True,
             text=True,
